@@ -115,7 +115,7 @@ def mkvariants(rnd, n, small, complen=0, plainlen=0):
         if mode == 'stdout':
             v['feed'] = lbz.feed_pattern(rnd)
             if rnd.random() < 0.3:
-                v['drain'] = (rnd.choice([1, 100, 4096]), 0)
+                v['drain'] = (rnd.choice([1, 100, 4096] if plainlen <= 60000 else [4096, 65536]), 0)
         vs.append(v)
     return vs
 
